@@ -68,8 +68,8 @@ theorem order_facts_as_expected :
       "close:storeFlushChannel", "recv:doneFlushChannel", "unlock:db", "send:compactionTickerStopChannel",
       "recv:doneCompactionChannel", "content:wal.Close", "call:SSTableManager.currentSSTable",
       "content:currentReader.Close"] ∧
-    flushSends = [("DB.VerifWaitFlushIdle", "&empty"), ("DB.rotateWalAndFlushMemstore", "swapMemstore(db)")] ∧
-    swapMemstoreBody = "{ storeToFlush := db.memStore.writeStore db.memStore = &RWMemstore{ readStore: storeToFlush, writeStore: memstore.NewMemStore(), } return &storeToFlush }" ∧
+    flushSends = [("DB.VerifWaitFlushIdle", "&v0"), ("DB.rotateWalAndFlushMemstore", "swapMemstore(r)")] ∧
+    swapMemstoreBody = "{ v0 := p0.memStore.writeStore p0.memStore = &RWMemstore{ readStore: v0, writeStore: memstore.NewMemStore(), } return &v0 }" ∧
     dbLockShared = true ∧
     dbChannels = [("compactionTickerStopChannel", "make(chan interface{}, 1)"), ("doneCompactionChannel", "make(chan bool)"),
       ("doneFlushChannel", "make(chan bool)"), ("storeFlushChannel", "make(chan memStoreFlushAction)")] ∧
